@@ -1,0 +1,13 @@
+//go:build !verif
+
+// Package verifhook provides named call sites for the verification harness. Without the
+// "verif" build tag every function is empty.
+package verifhook
+
+func Yield(site string)         {}
+func Block(site string)         {}
+func Unblock(site string)       {}
+func Spawn()                    {}
+func Begin(site string)         {}
+func End()                      {}
+func Crash(site, label string) {}
